@@ -37,7 +37,6 @@ ASSUMPTIONS = ["CPython 3.12 protocol behaviour (athrow() on a finished async ge
                "single thread; logger options depth=0; exceptions injected by throw() that escape are unspecified"]
 
 K_F9 = "F9-asyncgen-athrow-bypasses-catcher"
-K_ACLOSE = "C16-asyncgen-aclose-after-finish-raises"
 K_GENEXIT = "C16-throw-generatorexit-becomes-close"
 K_CLOSE_GE = "C16-close-logs-generatorexit-when-matched"
 
@@ -703,8 +702,6 @@ def finding_key(kind, op, acts, rw, ru, step_events, spec_events):
         if op[0] == "c" and any(t.startswith("L") and t.split(".")[1:3] == ["0", "50"] for t in step_events):
             return K_CLOSE_GE    # close(): GeneratorExit re-raised inside `with catcher`, configuration matches it
     if kind == "agen":
-        if op[0] == "c" and not acts and rw == ("e", 4, 23) and ru == ("c",):
-            return K_ACLOSE
         if op[0] in ("t", "c") and spec_events and rw == ru and not step_events:
             return K_F9
     return None
@@ -782,8 +779,6 @@ W_F9 = {"kind": "agen", "cfgs": [cfg_default()], "env": ENV0,
         "table": [row(["y", 1, 1]), row(["y", 2, 1], c7=["e", 8, 101])], "ops": [["s", 0], ["t", 7, 200]]}
 W_F9_CLOSE = {"kind": "agen", "cfgs": [cfg_default()], "env": ENV0,
               "table": [row(["y", 1, 1]), row(["y", 2, 1], c0=["e", 8, 101])], "ops": [["s", 0], ["c"]]}
-W_ACLOSE = {"kind": "agen", "cfgs": [cfg_default()], "env": ENV0,
-            "table": [row(["y", 1, 1]), row(["r", 0])], "ops": [["s", 0], ["s", 0], ["c"]]}
 W_GENEXIT = {"kind": "gen", "cfgs": [cfg_default()], "env": ENV0,
              "table": [row(["y", 1, 1]), row(["y", 2, 1], c0=["r", 5])], "ops": [["s", 0], ["t", 0, 200]]}
 W_CLOSE_GE = {"kind": "gen", "cfgs": [cfg_default(exc=["BaseException"])], "env": ENV0,
@@ -903,14 +898,18 @@ def _run(ctx):
 
     scenarios = []
     # ---- witnesses of the known findings (probed on every run) and corpus
-    fixed = [("witness", W_F9), ("witness", W_F9_CLOSE), ("witness", W_ACLOSE), ("witness", W_GENEXIT),
+    fixed = [("witness", W_F9), ("witness", W_F9_CLOSE), ("witness", W_GENEXIT),
              ("witness", W_CLOSE_GE)]
     fixed += [("corpus", c[0]) for c in CORPUS]
     import glob
     import json
     import os
+    file_expect = []
     for path in sorted(glob.glob(os.path.join(core.VERIF, "corpus", "C16", "*.json"))):
-        fixed.append(("corpus-file", json.load(open(path))["scenario"]))
+        entry = json.load(open(path))
+        fixed.append(("corpus-file", entry["scenario"]))
+        if "expected" in entry:
+            file_expect.append((entry["scenario"], entry["expected"][0], entry["expected"][1]))
     for tag, sc in fixed:
         scenarios.append((tag, sc))
     n = ctx.n(12000, 200000) * boost
@@ -945,7 +944,7 @@ def _run(ctx):
                 break
 
     # ---- corpus expectations (exact)
-    for sc, exp_res, exp_tr in CORPUS:
+    for sc, exp_res, exp_tr in list(CORPUS) + file_expect:
         W = execute(sc, True)
         nested = len(sc["cfgs"]) > 1
         got = ([res_token(r) for r in W[0]], [ev_token(e, nested) if e[0] in "LOP" else repr(e) for e in W[2]])
@@ -953,7 +952,7 @@ def _run(ctx):
             ctx.violation("corpus case %s: expected %s %s, observed %s %s" % (line_of(sc), exp_res, exp_tr, got[0], got[1]),
                           {"stream": "corpus", "scenario": sc, "expected": [exp_res, exp_tr]})
     # ---- the recorded witnesses must still be what they were (otherwise say so: a fix landed)
-    for name, sc, key in (("F9", W_F9, K_F9), ("aclose", W_ACLOSE, K_ACLOSE), ("genexit", W_GENEXIT, K_GENEXIT),
+    for name, sc, key in (("F9", W_F9, K_F9), ("genexit", W_GENEXIT, K_GENEXIT),
                           ("close-genexit", W_CLOSE_GE, K_CLOSE_GE)):
         if not any(True for f, _ in ctx.known_hits if f.get("key") == key) and \
                 not any(v.get("key") == key for v in ctx.violations):
